@@ -290,8 +290,9 @@ def r4_r5_consumers_enqueuers(ctx, f, rep):
 class _Quiet:
     """Report proxy that records nothing but violations (used when another module's extractor is reused)."""
 
-    def __init__(self, rep):
+    def __init__(self, rep, prefix='C15'):
         self._rep = rep
+        self._prefix = prefix
 
     def rule(self, *a, **k):
         pass
@@ -304,11 +305,11 @@ class _Quiet:
 
     def check(self, cond, rule, fn, what, site=None, facts=None, construct=None):
         if not cond:
-            self._rep.violation(rule.replace('C07', 'C15'), fn, construct or what, 'expected: ' + what, site, facts)
+            self._rep.violation(rule.replace('C07', self._prefix), fn, construct or what, 'expected: ' + what, site, facts)
         return cond
 
     def violation(self, rule, *a, **k):
-        self._rep.violation(rule.replace('C07', 'C15'), *a, **k)
+        self._rep.violation(rule.replace('C07', self._prefix), *a, **k)
 
 
 def check(ctx):
